@@ -19,6 +19,8 @@ Streams (templates; attribute parsing / signatures are harness/c05_attrs.py's st
   oracle.buffer_filters   `Template(buffer_filters=[…])`: "a buffered def returns its content (after buffer_filters)";
   oracle.rich_signatures  defaults, *args, **kw, keyword-only parameters and keyword body args (not expressible
                       in the Lean wire syntax) interacting with buffering / caller / content (harness/c05_rich.py);
+  oracle.decorators / corr.deco   "a decorator= wraps the call": decorators that TRANSFORM the arguments, top-level and
+                      nested defs, every call path on which keywords reach the decorator (harness/c05_deco.py);
   oracle.quirk.<name> one stream per recorded code-generation quirk, generator knob switched on (the main streams
                       keep away from them): the oracle finds each on its own.
 Every violation is shrunk (gen_template.shrink_set) and classified by a *necessary feature* test: a recorded quirk
@@ -610,11 +612,14 @@ def attrs(ctx, what):
 
 def run(ctx):
     sets, pending = [], []
+    from harness import c05_deco
     try:
         run_oracles(ctx, sets, pending)
+        c05_deco.oracle(ctx)
         attrs(ctx, "oracle")
     finally:
         corr_streams(ctx, sets, pending)
+        c05_deco.corr(ctx)
         attrs(ctx, "corr")
 
 
@@ -630,6 +635,13 @@ def replay(ctx, data):
     if any(t in stream for t in (".attrs", ".sig", ".nsexpr")):      # harness/c05_attrs.py's streams
         from harness import c05_attrs
         return c05_attrs.replay_attrs(ctx, case)
+    if isinstance(case, dict) and case.get("deco"):
+        from harness import c05_deco
+        return c05_deco.replay(ctx, case)
+    if stream == "corr.deco":
+        print("request:", case.get("input"))
+        print("lean model:", ctx.driver().ask(case.get("input")))
+        return False
     if isinstance(case, dict) and case.get("rich"):
         from harness import c05_rich
         return c05_rich.replay(ctx, case)
